@@ -98,7 +98,13 @@ func vfC20SwarmScenario(t *testing.T, seed int64, tr *vfh.Trace) {
 		return err == nil
 	}}
 	tcp := &vfC20Tpt{protos: []int{ma.P_TCP}, tr: tr, local: local, mu: &mu, kind: kind, ok: okm, mis: mism, req: &req, match: func(a ma.Multiaddr) bool { return mafmt.TCP.Matches(a) }}
-	for _, tp := range []*vfC20Tpt{quic, tcp} {
+	// relayed addresses: to the detector a circuit address over a public UDP relay is a public UDP address like any other
+	circuit := &vfC20Tpt{protos: []int{ma.P_CIRCUIT}, tr: tr, local: local, mu: &mu, kind: kind, ok: okm, mis: mism, req: &req, match: func(a ma.Multiaddr) bool {
+		_, err := a.ValueForProtocol(ma.P_CIRCUIT)
+		return err == nil
+	}}
+	relayID := "12D3KooWD3eckifWpRn9wQpMG9R9hX3sD158z7EqHWmweQAJU5SA"
+	for _, tp := range []*vfC20Tpt{quic, tcp, circuit} {
 		if err := sw.AddTransport(tp); err != nil {
 			t.Fatal(err)
 		}
@@ -130,7 +136,11 @@ func vfC20SwarmScenario(t *testing.T, seed int64, tr *vfh.Trace) {
 			addrs = append(addrs, a)
 		}
 		if hasU {
-			add(fmt.Sprintf("/ip4/%s/udp/%d/quic-v1", pubIPs[rnd.Intn(len(pubIPs))], 4000+i), "upub", healthy)
+			if rnd.Intn(3) == 0 {
+				add(fmt.Sprintf("/ip4/%s/udp/%d/quic-v1/p2p/%s/p2p-circuit", pubIPs[rnd.Intn(len(pubIPs))], 4000+i, relayID), "upub", healthy)
+			} else {
+				add(fmt.Sprintf("/ip4/%s/udp/%d/quic-v1", pubIPs[rnd.Intn(len(pubIPs))], 4000+i), "upub", healthy)
+			}
 			if healthy && rnd.Intn(6) == 0 {
 				// the dial works at the network level but reaches another peer: an outcome of the path, not of the peer
 				mu.Lock()
